@@ -13,6 +13,22 @@ def is_num(v):
     return isinstance(v, NUM)
 
 
+def inst_of(x, t):
+    """`isinstance(x, t)` by its documented meaning: `t` a type, or a tuple of such (nested tuples allowed, the empty
+    tuple matches nothing), scanned left to right; true at the first match, undefined (None) on reaching anything else"""
+    if isinstance(t, tuple):
+        for u in t:
+            r = inst_of(x, u)
+            if r is None:
+                return None
+            if r:
+                return True
+        return False
+    if not isinstance(t, type):
+        return None
+    return isinstance(x, t)
+
+
 def hashable(v):
     try:
         hash(v)
@@ -159,12 +175,7 @@ def _meaning(fn, x, pos, kw):
         return True
     if fn == "is_instance":
         _, ts, _ = bind([], pos, kw, star=True)
-        for t in ts:
-            if not isinstance(t, type):
-                return None
-            if isinstance(x, t):
-                return True
-        return False
+        return inst_of(x, tuple(ts))
     if fn == "keys_contain":
         k = bind(["key"], pos, kw)[0]["key"]
         if not is_mapping(x) or not hashable(k):
@@ -218,13 +229,9 @@ def _meaning(fn, x, pos, kw):
         if not is_mapping(x):
             return None
         for k in x.keys():
-            ok = False
-            for t in ts:
-                if not isinstance(t, type):
-                    return None
-                if isinstance(k, t):
-                    ok = True
-                    break
+            ok = inst_of(k, tuple(ts))
+            if ok is None:
+                return None
             if not ok:
                 return False
         return True
